@@ -372,8 +372,12 @@ fn parse_field(base_data_size: usize, field: &Field) -> Result<FieldDefinition> 
         }
 
         let highest_bit_index_in_ranges = ranges.iter().map(|range| range.end).max().unwrap_or(0);
-        let number_of_bits_indexed =
-            (indexed_count - 1) * indexed_stride.unwrap() + highest_bit_index_in_ranges;
+        // Checked arithmetic: a huge stride must not wrap around to a small number of bits (in
+        // release builds the macro is compiled without overflow checks)
+        let number_of_bits_indexed = (indexed_count - 1)
+            .checked_mul(indexed_stride.unwrap())
+            .and_then(|bits| bits.checked_add(highest_bit_index_in_ranges))
+            .unwrap_or(usize::MAX);
         if number_of_bits_indexed > base_data_size {
             return Err(Error::new_spanned(
                 field.attrs.first(),
